@@ -4,6 +4,7 @@ package c11
 
 import (
 	"fmt"
+	"math/rand/v2"
 	"slices"
 	"sort"
 	"strings"
@@ -262,12 +263,134 @@ func runSetSeq(r *mon.Run, k kind, init []int, ops []int, queries *int64) {
 	}
 }
 
+// bigCase is one random walk over sets that grow to hundreds or thousands of
+// elements: implementations switch strategy with size (storage released or
+// kept on Clear, map growth, slice reallocation), the small-universe sweep
+// never gets there.
+type bigCase struct {
+	Kind  string `json:"kind"`
+	N     int    `json:"universe"`
+	Steps int    `json:"steps"`
+	Seed  uint64 `json:"seed"`
+}
+
+func observeBig(u *setUnderTest, m model, rng *rand.Rand, n int, full bool, q *int64) string {
+	a := u.api()
+	*q += 2
+	if a.Len() != len(m) {
+		return fmt.Sprintf("Len()=%d, the set holds %d values", a.Len(), len(m))
+	}
+	for i := 0; i < 6; i++ {
+		v := rng.IntN(n+2) - 0
+		*q++
+		if a.Has(v) != m[v] {
+			return fmt.Sprintf("Has(%d)=%v, want %v", v, a.Has(v), m[v])
+		}
+	}
+	if !full {
+		return ""
+	}
+	want := m.sorted()
+	got := slices.Clone(a.Values())
+	if u.k == kMap {
+		sort.Ints(got)
+	}
+	*q += 3
+	if !slices.Equal(got, want) {
+		return fmt.Sprintf("Values() has %d elements %v..., want %d elements", len(got), got[:min(len(got), 8)], len(want))
+	}
+	var ranged []int
+	a.Range(func(v int) bool { ranged = append(ranged, v); return true })
+	if u.k == kMap {
+		sort.Ints(ranged)
+	}
+	if !slices.Equal(ranged, want) {
+		return fmt.Sprintf("Range yields %d elements, want %d", len(ranged), len(want))
+	}
+	if !u.equal(newSet(u.k, want...)) {
+		return "Equal(a fresh set of the same values) = false"
+	}
+	return ""
+}
+
+func runBig(r *mon.Run, c bigCase, q *int64) {
+	k := kMap
+	if c.Kind == "SortedSliceSet" {
+		k = kSorted
+	}
+	rng := rand.New(rand.NewPCG(c.Seed, 0xb16))
+	u := newSet(k)
+	m := model{}
+	var frozen *setUnderTest
+	var frozenModel model
+	var log []string
+	fail := func(what string) {
+		if len(log) > 40 {
+			log = append([]string{fmt.Sprintf("... %d earlier steps", len(log)-40)}, log[len(log)-40:]...)
+		}
+		r.Violation(fmt.Sprintf("big:%s:%d:%d", c.Kind, c.N, c.Seed), fmt.Sprintf("%s over 1..%d after [%s]: %s", c.Kind, c.N, strings.Join(log, "; "), what), c)
+	}
+	for step := 0; step < c.Steps; step++ {
+		a := u.api()
+		switch x := rng.IntN(20); {
+		case x < 5: // bulk add of a run, often crossing a power of two
+			lo := 1 + rng.IntN(c.N)
+			cnt := []int{3, 17, 64, 200, 257, 300, 1025, c.N}[rng.IntN(8)]
+			log = append(log, fmt.Sprintf("Add(%d..%d)", lo, min(c.N, lo+cnt-1)))
+			for v := lo; v < lo+cnt && v <= c.N; v++ {
+				a.Add(v)
+				m[v] = true
+			}
+		case x < 8:
+			lo := 1 + rng.IntN(c.N)
+			cnt := []int{3, 64, 257, c.N}[rng.IntN(4)]
+			log = append(log, fmt.Sprintf("Delete(%d..%d)", lo, lo+cnt-1))
+			for v := lo; v < lo+cnt; v++ {
+				a.Delete(v)
+				delete(m, v)
+			}
+		case x < 10:
+			log = append(log, "Clear")
+			a.Clear()
+			m = model{}
+		case x < 12:
+			log = append(log, "s=s.Clone()")
+			frozen, frozenModel = u, m.clone()
+			u = u.clone()
+		case x < 16:
+			v := 1 + rng.IntN(c.N)
+			log = append(log, fmt.Sprintf("Add(%d)", v))
+			a.Add(v)
+			m[v] = true
+		default:
+			v := rng.IntN(c.N + 2)
+			log = append(log, fmt.Sprintf("Delete(%d)", v))
+			a.Delete(v)
+			delete(m, v)
+		}
+		full := step%4 == 3 || step == c.Steps-1
+		if w := observeBig(u, m, rng, c.N, full, q); w != "" {
+			fail(w)
+			return
+		}
+		if frozen != nil && full {
+			if w := observeBig(frozen, frozenModel, rng, c.N, true, q); w != "" {
+				fail("the other side of an earlier Clone changed: " + w)
+				return
+			}
+		}
+	}
+}
+
 func TestSets(t *testing.T) {
 	r := mon.Start("C11", "sets")
 	var rc struct {
-		Kind string `json:"kind"`
-		Init []int  `json:"init"`
-		Ops  []int  `json:"ops"`
+		Kind  string `json:"kind"`
+		Init  []int  `json:"init"`
+		Ops   []int  `json:"ops"`
+		N     int    `json:"universe"`
+		Steps int    `json:"steps"`
+		Seed  uint64 `json:"seed"`
 	}
 	if ok, err := mon.ReplayCase("sets", &rc); ok {
 		if err != nil {
@@ -278,7 +401,11 @@ func TestSets(t *testing.T) {
 		if rc.Kind == "SortedSliceSet" {
 			k = kSorted
 		}
-		runSetSeq(r, k, rc.Init, rc.Ops, &q)
+		if rc.Steps > 0 {
+			runBig(r, bigCase{Kind: rc.Kind, N: rc.N, Steps: rc.Steps, Seed: rc.Seed}, &q)
+		} else {
+			runSetSeq(r, k, rc.Init, rc.Ops, &q)
+		}
 		r.Eval(q)
 		r.NontrivialN(2)
 		if r.Finish() > 0 {
@@ -309,6 +436,33 @@ func TestSets(t *testing.T) {
 	}
 	r.Exhaustive(fmt.Sprintf("MapSet[int] and SortedSliceSet[int]: every sequence of %d operations over {Add,Delete}x{1..%d}, Clear, clone-continue, clone-keep from 3 initial contents, all queries after every operation", depth, universe))
 	r.Sample(map[string]any{"history": []string{"New([3 1 3 2])", "Add(4)", "s=s.Clone() (origin kept frozen)", "Delete(1)", "Clear", "Add(2)"}, "observed_after_each_op": "Has x6, Len, Values, Range with every early stop, Equal x7; same on the frozen clone partner"})
+
+	// large sets
+	{
+		var cases []bigCase
+		for _, kn := range []string{"MapSet", "SortedSliceSet"} {
+			for _, n := range []int{40, 300, 1100, 5000} {
+				for i := 0; i < r.Pick(40, 1500); i++ {
+					cases = append(cases, bigCase{Kind: kn, N: n, Steps: 24, Seed: r.Seed*1000003 + uint64(len(cases))})
+				}
+			}
+		}
+		mon.Parallel(len(cases), func(w, lo, hi int) {
+			var q int64
+			for i := lo; i < hi; i++ {
+				if p, pv := mon.Catch(func() { runBig(r, cases[i], &q) }); p {
+					r.Violation(fmt.Sprintf("big-panic:%s:%d:%d", cases[i].Kind, cases[i].N, cases[i].Seed), fmt.Sprintf("%s over 1..%d, random walk with seed %d: panic: %v", cases[i].Kind, cases[i].N, cases[i].Seed, pv), cases[i])
+				}
+				if r.TooMany() {
+					break
+				}
+			}
+			r.Eval(q)
+			r.NontrivialN(int64(hi - lo))
+			r.Count("large_set_walks", int64(hi-lo))
+		})
+		r.Sample(map[string]any{"large_set_walk": "24 steps over 1..N, N in 40/300/1100/5000: bulk Add/Delete of runs of 3..N values, Clear, Clone-and-continue, single Add/Delete; Len and Has probes after every step, Values/Range/Equal every 4th step on both clone partners"})
+	}
 
 	// constructor on every permutation-with-duplicates, string element type
 	var q int64
@@ -469,18 +623,111 @@ func runRingSeq(r *mon.Run, capN int, ops []bool, q *int64) {
 	}
 }
 
+// ringBig is a random walk on a buffer of a large capacity: bursts of pushes
+// (often a multiple of the capacity, or one more or less) and Clears.
+type ringBig struct {
+	Cap   int    `json:"cap"`
+	Steps int    `json:"steps"`
+	Seed  uint64 `json:"seed"`
+}
+
+func observeRingBig(rb *container.RingBuffer[int], model []int, capN int, rng *rand.Rand, q *int64) string {
+	k := len(model)
+	n := min(k, capN)
+	want := model[k-n:]
+	*q += 4
+	if rb.Len() != uint(n) {
+		return fmt.Sprintf("Len()=%d, model %d", rb.Len(), n)
+	}
+	var fwd, rev []int
+	rb.Range(func(v int) bool { fwd = append(fwd, v); return true })
+	rb.ReverseRange(func(v int) bool { rev = append(rev, v); return true })
+	if !slices.Equal(fwd, want) {
+		return fmt.Sprintf("Range yielded %d values %v..., model (oldest first) %d values %v...", len(fwd), fwd[:min(len(fwd), 6)], len(want), want[:min(len(want), 6)])
+	}
+	slices.Reverse(rev)
+	if !slices.Equal(rev, want) {
+		return fmt.Sprintf("ReverseRange yielded %d values, reversed %v..., model %d values %v...", len(rev), rev[:min(len(rev), 6)], len(want), want[:min(len(want), 6)])
+	}
+	if n > 0 {
+		stop := 1 + rng.IntN(n)
+		c := 0
+		var part []int
+		rb.Range(func(v int) bool { c++; part = append(part, v); return c < stop })
+		if !slices.Equal(part, want[:stop]) {
+			return fmt.Sprintf("Range stopping after %d yielded %d values", stop, len(part))
+		}
+		c = 0
+		part = part[:0]
+		rb.ReverseRange(func(v int) bool { c++; part = append(part, v); return c < stop })
+		slices.Reverse(part)
+		if !slices.Equal(part, want[n-stop:]) {
+			return fmt.Sprintf("ReverseRange stopping after %d yielded the wrong values", stop)
+		}
+	}
+	wantCur := 0
+	if capN > 0 && k >= capN {
+		wantCur = want[0]
+	}
+	if got := rb.Current(); got != wantCur {
+		return fmt.Sprintf("Current()=%d, model %d (full=%v)", got, wantCur, k >= capN && capN > 0)
+	}
+	return ""
+}
+
+func runRingBig(r *mon.Run, c ringBig, q *int64) {
+	rng := rand.New(rand.NewPCG(c.Seed, 0x41b6))
+	rb := container.NewRingBuffer[int](uint(c.Cap))
+	var model []int
+	var log []string
+	next := 1
+	for step := 0; step < c.Steps; step++ {
+		if rng.IntN(5) == 0 {
+			rb.Clear()
+			model = nil
+			log = append(log, "Clear")
+		} else {
+			cnt := []int{1, 2, c.Cap - 1, c.Cap, c.Cap + 1, 2 * c.Cap, 2*c.Cap + 1, 1 + rng.IntN(3*c.Cap+1)}[rng.IntN(8)]
+			cnt = max(cnt, 0)
+			log = append(log, fmt.Sprintf("Push x%d", cnt))
+			for i := 0; i < cnt; i++ {
+				rb.Push(next)
+				model = append(model, next)
+				next++
+			}
+			if len(model) > 2*c.Cap+8 { // the model only needs the tail
+				model = slices.Clone(model[len(model)-c.Cap-4:])
+				// keep "k >= cap" true
+				for len(model) < c.Cap {
+					model = append([]int{0}, model...)
+				}
+			}
+		}
+		if w := observeRingBig(rb, model, c.Cap, rng, q); w != "" {
+			r.Violation(fmt.Sprintf("RingBig:%d:%d", c.Cap, c.Seed), fmt.Sprintf("RingBuffer of capacity %d after [%s] (pushed values are 1,2,3,...): %s", c.Cap, strings.Join(log, "; "), w), c)
+			return
+		}
+	}
+}
+
 func TestRing(t *testing.T) {
 	r := mon.Start("C11", "ring")
 	var rc struct {
-		Cap int    `json:"cap"`
-		Ops []bool `json:"ops_push"`
+		Cap   int    `json:"cap"`
+		Ops   []bool `json:"ops_push"`
+		Steps int    `json:"steps"`
+		Seed  uint64 `json:"seed"`
 	}
 	if ok, err := mon.ReplayCase("ring", &rc); ok {
 		if err != nil {
 			t.Fatal(err)
 		}
 		var q int64
-		runRingSeq(r, rc.Cap, rc.Ops, &q)
+		if rc.Steps > 0 {
+			runRingBig(r, ringBig{Cap: rc.Cap, Steps: rc.Steps, Seed: rc.Seed}, &q)
+		} else {
+			runRingSeq(r, rc.Cap, rc.Ops, &q)
+		}
 		r.Eval(q)
 		r.NontrivialN(2)
 		if r.Finish() > 0 {
@@ -510,6 +757,29 @@ func TestRing(t *testing.T) {
 	}
 	r.Exhaustive(fmt.Sprintf("RingBuffer[int]: capacities 0..6 x every sequence of %d operations over {Push(unique non-zero value), Clear}, all queries (Len, Range and ReverseRange with every early stop, Current) after every operation", depth))
 	r.Sample(map[string]any{"history": "NewRingBuffer(3); Push(1); Push(2); Push(3); Push(4); Clear; Push(5); Push(6)", "model_after": []int{5, 6}, "current_expected": 0})
+	// large capacities
+	{
+		var cases []ringBig
+		for _, capN := range []int{7, 8, 9, 15, 16, 17, 31, 32, 33, 63, 64, 65, 100, 255, 256, 257, 1000, 1024, 4096} {
+			for i := 0; i < r.Pick(30, 1000); i++ {
+				cases = append(cases, ringBig{Cap: capN, Steps: 16, Seed: r.Seed*7919 + uint64(len(cases))})
+			}
+		}
+		mon.Parallel(len(cases), func(w, lo, hi int) {
+			var q int64
+			for i := lo; i < hi; i++ {
+				if p, pv := mon.Catch(func() { runRingBig(r, cases[i], &q) }); p {
+					r.Violation(fmt.Sprintf("RingBig-panic:%d:%d", cases[i].Cap, cases[i].Seed), fmt.Sprintf("RingBuffer of capacity %d, random walk with seed %d: panic: %v", cases[i].Cap, cases[i].Seed, pv), cases[i])
+				}
+				if r.TooMany() {
+					break
+				}
+			}
+			r.Eval(q)
+			r.NontrivialN(int64(hi - lo))
+			r.Count("large_ring_walks", int64(hi-lo))
+		})
+	}
 	// string-typed and nil buffers
 	rs := container.NewRingBuffer[string](2)
 	rs.Push("a")
